@@ -1,7 +1,132 @@
 import CddVerif.Driver.Basic
-/-! Driver ops for C12 (line protocol; see Main.lean). Only Mathlib-free imports here. -/
-namespace Driver.C12
-open Lean Driver
+import CddVerif.Py.AstJson
+import CddVerif.Model.Sync
+/-! Driver ops for C12 (line protocol; see Main.lean). Only Mathlib-free imports here.
 
-def ops : List (String × Handler) := []
+* `c12.find`    — `find_in_ast(search, module)`
+* `c12.rewrite` — `RewriteAtQuery(search, replacement).visit(module)`
+* `c12.plan`    — which emission `_conform_filename` asks for, per kind (function type / name, or "new" for a missing file)
+* `c12.sync`    — `ground_truth` on three files; the IR is an opaque token and the emitters are the table of nodes
+                  the harness obtained from the REAL emitters for the requests of `c12.plan`
+-/
+namespace Driver.C12
+open Lean Driver PyAst Sync
+
+def errJ : Err → Json
+  | .assertion w => Json.mkObj [("error", "raises:AssertionError"), ("what", Json.str w)]
+  | .typeError w => Json.mkObj [("error", "raises:TypeError"), ("what", Json.str w)]
+  | .attributeError w => Json.mkObj [("error", "raises:AttributeError"), ("what", Json.str w)]
+  | .notImplemented w => Json.mkObj [("error", "raises:NotImplementedError"), ("what", Json.str w)]
+  | .outOfModel w => Json.mkObj [("error", "out-of-model"), ("what", Json.str w)]
+
+def foundJ : Option Found → Json
+  | none => Json.null
+  | some .module => Json.mkObj [("k", "module")]
+  | some (.stmt s) => Json.mkObj [("k", "stmt"), ("node", stmtJ s)]
+  | some (.arg a d) => Json.mkObj [("k", "arg"), ("name", Json.str a.name), ("ann", optJ a.ann), ("default", optJ d)]
+
+def pathOf (j : Json) (k : String) : List String := strList j k
+
+def kindOf : String → Except String Kind
+  | "argparse_function" => pure .argparse
+  | "class" => pure .cls
+  | "function" => pure .function
+  | s => throw s!"bad kind {s}"
+
+def kindName : Kind → String
+  | .argparse => "argparse_function"
+  | .cls => "class"
+  | .function => "function"
+
+def fileOf (j : Json) (k : String) : Option PyAst.Module :=
+  match j.getObjVal? k with
+  | .ok (.arr a) => some (moduleOf (.arr a))
+  | _ => none
+
+def filesOf (j : Json) : Files :=
+  { argparse := fileOf j "argparse_function", cls := fileOf j "class", function := fileOf j "function" }
+
+def fileJ : Option PyAst.Module → Json
+  | none => Json.null
+  | some m => moduleJ m
+
+def filesJ (f : Files) : Json :=
+  Json.mkObj [("argparse_function", fileJ f.argparse), ("class", fileJ f.cls), ("function", fileJ f.function)]
+
+/-- `name.split(".")`, with `str.strip` per component for the targets (ASCII whitespace is all the harness generates) -/
+def searchOf (strip : Bool) (name : String) : List String :=
+  (name.splitOn ".").map (fun s => if strip then s.trimAscii.toString else s)
+
+def pathsOf (names : Json) : Kind → List String := fun k =>
+  searchOf true ((PyAst.optStr names (kindName k)).getD "")
+
+/-- the emission table: key `kind|new` or `kind|<function type or ->|name` -/
+def emitKey (k : Kind) (ft : Option String) (name : String) : String :=
+  kindName k ++ "|" ++ ft.getD "-" ++ "|" ++ name
+
+def tableEmitters (tbl : List (String × Stmt)) : Emitters Unit :=
+  { parse := fun _ _ _ _ => (),
+    emit := fun k _ ft name => match tbl.find? (·.1 == emitKey k ft name) with
+      | some (_, s) => s
+      | none => .other ("<no emission for " ++ emitKey k ft name ++ ">"),
+    emitNew := fun k _ => match tbl.find? (·.1 == kindName k ++ "|new") with
+      | some (_, s) => s
+      | none => .other ("<no emission for " ++ kindName k ++ "|new>") }
+
+def tableOf (j : Json) : List (String × Stmt) :=
+  match j.getObjVal? "emissions" with
+  | .ok (.arr a) => a.toList.filterMap (fun e =>
+      match PyAst.optStr e "key", e.getObjVal? "node" with
+      | some k, .ok n => some (k, stmtOf n)
+      | _, _ => none)
+  | _ => []
+
+def ops : List (String × Handler) := [
+  ("c12.find", fun j => do
+    let m := moduleOf (← j.getObjVal? "module")
+    match findInAst (pathOf j "search") m with
+    | .ok f => return Json.mkObj [("found", foundJ f)]
+    | .error e => return errJ e),
+  ("c12.rewrite", fun j => do
+    let m := moduleOf (← j.getObjVal? "module")
+    let repl := stmtOf (← j.getObjVal? "repl")
+    match rwList (pathOf j "search") none m { repl := .stmt repl, replaced := false } with
+    | .ok (m', st) => return Json.mkObj [("module", moduleJ m'), ("replaced", Json.bool st.replaced)]
+    | .error e => return errJ e),
+  ("c12.plan", fun j => do
+    let files := filesOf (← j.getObjVal? "files")
+    let names ← j.getObjVal? "names"
+    let t ← kindOf (← getStr j "truth")
+    let truthPath := searchOf false ((PyAst.optStr names (kindName t)).getD "")
+    let truth : Json := match files.get t with
+      | none => Json.mkObj [("error", "truth-file-missing")]
+      | some m => match findInAst truthPath m with
+        | .error e => errJ e
+        | .ok f => match optFunctionType t f with
+          | .error e => errJ e
+          | .ok ft => Json.mkObj [("found", foundJ f), ("ft", optJ ft), ("name", Json.str (optName t truthPath))]
+    let reqs := kinds.map (fun k =>
+      let p := pathsOf names k
+      let r : Json := match files.get k with
+        | none => Json.mkObj [("key", Json.str (kindName k ++ "|new")), ("new", Json.bool true)]
+        | some m => match findInAst p m with
+          | .error e => errJ e
+          | .ok f => match optFunctionType k f with
+            | .error e => errJ e
+            | .ok ft => Json.mkObj [("key", Json.str (emitKey k ft (optName k p))), ("new", Json.bool false), ("ft", optJ ft),
+                ("name", Json.str (optName k p)), ("found", foundJ f)]
+      (kindName k, r))
+    return Json.mkObj [("truth", truth), ("requests", Json.mkObj reqs)]),
+  ("c12.sync", fun j => do
+    let files := filesOf (← j.getObjVal? "files")
+    let names ← j.getObjVal? "names"
+    let t ← kindOf (← getStr j "truth")
+    let truthPath := searchOf false ((PyAst.optStr names (kindName t)).getD "")
+    let E := tableEmitters (tableOf j)
+    let r := sync E t truthPath (pathsOf names) files
+    return Json.mkObj [
+      ("files", filesJ r.files),
+      ("flags", Json.mkObj (r.flags.map (fun kf => (kindName kf.1, Json.bool kf.2)))),
+      ("err", match r.err with | none => Json.null | some e => errJ e)])
+]
 end Driver.C12
